@@ -399,9 +399,8 @@ func (s *clientSocket) onConnect(_ *parser.PacketHeader, decode parser.Decode) {
 
 	if v.PID != "" {
 		pid, ok := s.pid()
-		if ok && pid == adapter.PrivateSessionID(v.PID) {
-			s.setRecovered(true)
-		}
+		// Recovered describes this connection: reset it when the server started a new session.
+		s.setRecovered(ok && pid == adapter.PrivateSessionID(v.PID))
 		s.setPID(adapter.PrivateSessionID(v.PID))
 	}
 
